@@ -148,9 +148,17 @@ func genC16(g *Gen, tier string, idx int) *wire.Scenario {
 	script, _ := g.setupBuffer(&env, mode, g.P(25))
 	x := c16X{Vi: vi}
 	km := "emacs"
+	// the kills and the yank happen while a keyboard macro is being recorded
+	recording := g.P(15)
+	if recording && !vi {
+		script = append(script, tok(g.Cat.ShortSeqFor(km, "start-kbd-macro"), "start-kbd-macro"))
+	}
 	if vi {
 		script = append(script, tok("\x1b", "vi-movement-mode"))
 		km = "vi-command"
+		if recording {
+			script = append(script, tok(g.Cat.ShortSeqFor(km, "macro-toggle-record"), "macro-toggle-record"), tok("a", "macro-register"))
+		}
 		cmd := "vi-delete" // the statement names delete-character (x) followed by put-before (P)
 		if g.P(30) {
 			script = append(script, tok(fmt.Sprint(g.Range(2, 4)), "vi-arg-digit"))
@@ -304,6 +312,7 @@ type c17X struct {
 	Motion string `json:"motion"`
 	Count  string `json:"count"`
 	Visual bool   `json:"visual"`
+	Warm   int    `json:"warm,omitempty"` // tokens of an earlier Readline call of the same shell (the buffer is then put from its kill)
 }
 
 var viMotions = []string{"h", "l", "w", "b", "e", "W", "B", "E", "0", "$", "^", "%", "ge", "gE", "iw", "aw", "iW", "aW", "ia", "aa",
@@ -318,8 +327,24 @@ func genC17(g *Gen, tier string, idx int) *wire.Scenario {
 	}
 	env.Binds = g.Cat.Extra
 	script, text := g.setupBuffer(&env, "vi", g.P(15))
+	warm := 0
+	if g.P(15) {
+		// the buffer comes out of the kill buffer instead: an earlier Readline call of the same shell killed
+		// this text, the new prompt puts it on the empty line and moves away from its start
+		text = Pick(g, []string{"hello world", "foo (bar) baz", "a bb ccc dddd", "x.y z-w q"})
+		script = nil
+		for _, r := range text {
+			script = append(script, tok(string(r), "self-insert"))
+		}
+		script = append(script, tok("\x1b", "vi-movement-mode"), tok("0", "vi-move"), tok("D", "vi-kill-eol"), tok("\r", "accept-line"))
+		warm = len(script)
+		script = append(script, tok("\x1b", "vi-movement-mode"), tok(Pick(g, []string{"p", "P"}), "vi-put"))
+		for i := 0; i < g.N(3); i++ {
+			script = append(script, tok(Pick(g, []string{"w", "l", "0", "b", "w"}), "vi-move"))
+		}
+	}
 	script = append(script, tok("\x1b", "vi-movement-mode"))
-	x := c17X{Setup: len(script)}
+	x := c17X{Setup: len(script), Warm: warm}
 	m := Pick(g, viMotions)
 	if strings.HasSuffix(m, "X") && len(m) == 2 {
 		c := "x"
@@ -371,7 +396,14 @@ func execC17(x *Ctx, sc *wire.Scenario) *wire.Result {
 	run := func(op string) (*sim.Outcome, *sim.Snap) {
 		s2 := *sc
 		s2.Script = c17Script(sc, xx, op)
-		out := runSession(x, &s2, sc.Plan, sim.Hooks{}, false)
+		hooks := sim.Hooks{}
+		if xx.Warm > 0 {
+			hooks.Body = func(s *sim.Session, sh *readlineShell) {
+				s.Readline(sh)
+				s.Readline(sh)
+			}
+		}
+		out := runSession(x, &s2, sc.Plan, hooks, false)
 		absorb(res, out)
 		return out, waitAfter(out, xx.Setup)
 	}
